@@ -195,3 +195,22 @@ macro_rules! impl_from_bits {
 }
 
 impl_from_bits!(u8, u16, u32, u64, u128);
+
+/// Verification hook (feature `verif-hooks`): the statically compiled u32 circuits, by name.
+#[cfg(feature = "verif-hooks")]
+pub fn verif_u32_circuits() -> Vec<(&'static str, &'static dyn GetBitCircuitInfo)> {
+    use circuits::u32::*;
+    vec![
+        ("add", &add_codegen::OUTPUT_CIRCUITS as &'static dyn GetBitCircuitInfo),
+        ("sub", &sub_codegen::OUTPUT_CIRCUITS),
+        ("sll", &sll_codegen::OUTPUT_CIRCUITS),
+        ("srl", &srl_codegen::OUTPUT_CIRCUITS),
+        ("sra", &sra_codegen::OUTPUT_CIRCUITS),
+        ("slt", &slt_codegen::OUTPUT_CIRCUITS),
+        ("sltu", &sltu_codegen::OUTPUT_CIRCUITS),
+        ("and", &and_codegen::OUTPUT_CIRCUITS),
+        ("or", &or_codegen::OUTPUT_CIRCUITS),
+        ("xor", &xor_codegen::OUTPUT_CIRCUITS),
+        ("identity", &identity_codgen::OUTPUT_CIRCUITS),
+    ]
+}
